@@ -54,6 +54,7 @@ def stepLine (g : Option Geom) (line : String) : Option Geom × String :=
         let b : Bin := ⟨I s, I v, I a, I tp, I t⟩
         let l := (gg.allDetPairsForBin b).toArray.qsort (fun x y => lexLt (dpKey x) (dpKey y)) |>.toList
         (g, s!"{gg.numDetPairsForBin b} | " ++ " ".intercalate (l.map fun p => s!"{p.d1},{p.r1},{p.d2},{p.r2},{p.t}"))
+      | ["setviews", v] => (some { gg with viewMash := (gg.N.tdiv 2).tdiv (I v) }, "ok")
       | ["wf"] => (g, if gg.WFb then "1" else "0")
       | ["b2d", s, v, a, tp, t] =>
         match gg.detPairForBin ⟨I s, I v, I a, I tp, I t⟩ with
